@@ -100,9 +100,16 @@ impl<T: Write + Seek> ShapeWriter<T> {
             // to reserve it space in the file.
             (ShapeType::NullShape, t) => {
                 self.header.shape_type = t;
+                // Infinities are neutral for min / max, so the box is exact
+                // even when a coordinate is infinite or equal to f64::MAX / f64::MIN
                 self.header.bbox = BBoxZ {
-                    max: PointZ::new(f64::MIN, f64::MIN, f64::MIN, f64::MIN),
-                    min: PointZ::new(f64::MAX, f64::MAX, f64::MAX, f64::MAX),
+                    max: PointZ::new(
+                        f64::NEG_INFINITY,
+                        f64::NEG_INFINITY,
+                        f64::NEG_INFINITY,
+                        f64::NEG_INFINITY,
+                    ),
+                    min: PointZ::new(f64::INFINITY, f64::INFINITY, f64::INFINITY, f64::INFINITY),
                 };
                 self.shp_dest.seek(SeekFrom::Start(0))?;
                 self.header.write_to(&mut self.shp_dest)?;
@@ -194,12 +201,12 @@ impl<T: Write + Seek> ShapeWriter<T> {
             return Ok(());
         }
 
-        if self.header.bbox.max.m == f64::MIN && self.header.bbox.min.m == f64::MAX {
+        if self.header.bbox.max.m == f64::NEG_INFINITY && self.header.bbox.min.m == f64::INFINITY {
             self.header.bbox.max.m = 0.0;
             self.header.bbox.min.m = 0.0;
         }
 
-        if self.header.bbox.max.z == f64::MIN && self.header.bbox.min.z == f64::MAX {
+        if self.header.bbox.max.z == f64::NEG_INFINITY && self.header.bbox.min.z == f64::INFINITY {
             self.header.bbox.max.z = 0.0;
             self.header.bbox.min.z = 0.0;
         }
